@@ -58,6 +58,25 @@ def _intval(v):
     return int(x)
 
 
+def _bound(kind, v):
+    """Constraint argument -> bound record: integers as they are, fractions in tenths (Semantics!Ge10 ...)."""
+    ok, x = _val(v)
+    if not ok or isinstance(x, bool) or not isinstance(x, (int, float)):
+        raise Unsupported("constraint argument %r" % (v,))
+    return bound_of(kind, x)
+
+
+def bound_of(kind, x):
+    if abs(x) > 10 ** 7:
+        raise Unsupported("constraint argument beyond the 32-bit universe of TLC")
+    if x == int(x):
+        return {"b": kind, "v": int(x)}
+    x10 = x * 10
+    if abs(x10 - round(x10)) > 1e-9:
+        raise Unsupported("constraint argument %r is not a multiple of 0.1" % (x,))
+    return {"b": kind + "10", "v": int(round(x10))}
+
+
 def _type(t, name_of):
     k = t["k"]
     if k == "scalar":
@@ -71,14 +90,13 @@ def _type(t, name_of):
         lo, hi, mn, mx = dict(NOB), dict(NOB), -1, -1
         for c in t["cons"]:
             op = c["op"]
-            if op == ">=":
-                lo = {"b": "ge", "v": _intval(c["args"][0])}
-            elif op == ">":
-                lo = {"b": "gt", "v": _intval(c["args"][0])}
-            elif op == "<=":
-                hi = {"b": "le", "v": _intval(c["args"][0])}
-            elif op == "<":
-                hi = {"b": "lt", "v": _intval(c["args"][0])}
+            if op in (">=", ">", "<=", "<"):
+                kind = {">=": "ge", ">": "gt", "<=": "le", "<": "lt"}[op]
+                b = _bound(kind, c["args"][0])
+                if kind in ("ge", "gt"):
+                    lo = b
+                else:
+                    hi = b
             elif op == "minLength":
                 mn = _intval(c["args"][0])
             elif op == "maxLength":
@@ -271,6 +289,10 @@ def _is_int(x):
     return isinstance(x, (int, float)) and not isinstance(x, bool) and x == int(x)
 
 
+def _is_tenth(x):
+    return isinstance(x, (int, float)) and not isinstance(x, bool) and abs(x) <= 10 ** 7 and abs(x * 10 - round(x * 10)) < 1e-9
+
+
 def describe(n, fmt, notes, lenient=False):
     """One schema node -> E-term. `notes` collects keywords that are not part of the format's language.
     lenient: read the draft-07 keywords an OpenAPI 3.0 document must not contain (`const`, numeric exclusive bounds) the
@@ -370,17 +392,17 @@ def describe(n, fmt, notes, lenient=False):
                 e["cst"] = sc.py_to_jv(v)
             except sc.NotInUniverse:
                 return dict(UNKNOWN)
-        elif kw in ("minimum", "maximum") and _is_int(v):
+        elif kw in ("minimum", "maximum") and _is_tenth(v):
             side, incl, excl = ("lo", "ge", "gt") if kw == "minimum" else ("hi", "le", "lt")
             ex = n.get("exclusiveM" + kw[1:])
             if oa and ex is True:
-                e[side] = {"b": excl, "v": int(v)}
+                e[side] = bound_of(excl, v)
             elif oa and lenient and _is_int(ex) and not isinstance(ex, bool):
                 return dict(UNKNOWN)
             else:
                 if e[side]["b"] != "none":
                     return dict(UNKNOWN)
-                e[side] = {"b": incl, "v": int(v)}
+                e[side] = bound_of(incl, v)
         elif kw in ("exclusiveMinimum", "exclusiveMaximum"):
             side, excl = ("lo", "gt") if kw == "exclusiveMinimum" else ("hi", "lt")
             if oa and isinstance(v, bool):
@@ -388,9 +410,9 @@ def describe(n, fmt, notes, lenient=False):
             if strict_oa:
                 notes.add(kw + ":number")    # OpenAPI 3.0: must be a boolean
                 continue
-            if not _is_int(v) or e[side]["b"] != "none":
+            if not _is_tenth(v) or e[side]["b"] != "none":
                 return dict(UNKNOWN)
-            e[side] = {"b": excl, "v": int(v)}
+            e[side] = bound_of(excl, v)
         else:
             return dict(UNKNOWN)
     return wrap(e)
@@ -882,3 +904,104 @@ def field_kind(exp, path):
         else:
             e = None
     return _strip(e)["k"] if e is not None else "?"
+
+
+# ----------------------------------------------------------------------------------------------
+# the IR-built route: schema term -> cog IR (the projection format of harness/cmd/worker/ir.go, read by unprojSchemas)
+# ----------------------------------------------------------------------------------------------
+NILV = {"t": "nil", "s": ""}
+
+
+def _v(x):
+    if x is None:
+        return dict(NILV)
+    if isinstance(x, bool):
+        return {"t": "bool", "s": "true" if x else "false"}
+    if isinstance(x, str):
+        return {"t": "string", "s": x}
+    if isinstance(x, int):
+        return {"t": "int64", "s": str(x)}
+    if isinstance(x, float):
+        return {"t": "float64", "s": json.dumps(x)}
+    if isinstance(x, list):
+        return {"t": "[]interface {}", "s": json.dumps(x)}
+    if isinstance(x, dict):
+        return {"t": "map[string]interface {}", "s": json.dumps(x)}
+    raise Unsupported("value %r" % (x,))
+
+
+def _vjv(v):
+    return dict(NILV) if v["j"] == "none" else _v(sc.jv_to_py(v))
+
+
+def term_to_ir(term, main_pkg, pmap):
+    """-> [Schema] in ir.go's projection format. pmap: term package -> real package name ('' -> main_pkg)."""
+    fs = term["foreign"]
+
+    def where(name):
+        return pmap.get(pkg_of(fs, name), main_pkg) if pkg_of(fs, name) else main_pkg
+
+    def ty(t, nullable=False, default=None):
+        base = {"nullable": bool(nullable), "def": default or dict(NILV), "hints": []}
+        k = t["k"]
+        if k in ("int", "num", "str", "bool", "any", "time", "const"):
+            cons, val, sk = [], dict(NILV), None
+            if k in ("int", "num"):
+                sk = t["w"]
+                for b, ops in ((t["lo"], {"ge": ">=", "gt": ">"}), (t["hi"], {"le": "<=", "lt": "<"})):
+                    if b["b"] == "none":
+                        continue
+                    tenth = b["b"].endswith("10")
+                    x = b["v"] / 10 if tenth else b["v"]
+                    # cog's parsers hand bounds over as float64 (JSON Schema) or int64 (CUE): fractional ones are float64
+                    cons.append({"op": ops[b["b"].replace("10", "")], "args": [_v(float(x)) if tenth else _v(int(x))]})
+            elif k == "str":
+                sk = "string"
+                if t["mn"] != -1:
+                    cons.append({"op": "minLength", "args": [_v(t["mn"])]})
+                if t["mx"] != -1:
+                    cons.append({"op": "maxLength", "args": [_v(t["mx"])]})
+            elif k == "bool":
+                sk = "bool"
+            elif k == "any":
+                sk = "any"
+            elif k == "time":
+                sk = "string"
+                base["hints"] = [{"key": "string_format_datetime", "val": _v(True)}]
+            else:
+                c = sc.jv_to_py(t["v"])
+                sk = "string" if isinstance(c, str) else "bool" if isinstance(c, bool) else "int64" if isinstance(c, int) else "float64"
+                val = _v(c)
+            return dict(base, k="scalar", sk=sk, val=val, cons=cons)
+        if k in ("enum", "ienum"):
+            sk = "string" if k == "enum" else "int64"
+            return dict(base, k="enum", members=[{"name": ("V%s" % v) if k == "ienum" else str(v), "val": _v(v), "sk": sk} for v in t["vals"]])
+        if k == "ref":
+            return dict(base, k="ref", pkg=where(t["name"]), name=own_name(fs, t["name"]))
+        if k == "nullable":
+            return ty(t["t"], True, default)
+        if k == "arr":
+            return dict(base, k="array", elem=ty(t["t"]))
+        if k == "map":
+            return dict(base, k="map", idx=ty({"k": "str", "mn": -1, "mx": -1}), elem=ty(t["t"]))
+        if k == "union":
+            return dict(base, k="disj", branches=[ty(b) for b in t["ts"]], discr="", mapping=[])
+        if k == "dunion":
+            return dict(base, k="disj", branches=[ty({"k": "ref", "name": r}) for r in t["refs"]], discr=t["disc"], mapping=[])
+        if k == "struct":
+            return dict(base, k="struct", fields=[{"name": f["n"], "type": ty(f["t"], f["null"], _vjv(f["def"])), "required": f["req"], "comments": []}
+                                                   for f in t["fields"]])
+        raise Unsupported("term kind " + k)
+
+    by_pkg = {}
+    for d in term["defs"]:
+        by_pkg.setdefault(where(d["name"]), []).append(d)
+    out = []
+    for pkg in sorted(by_pkg):
+        objs = [{"name": own_name(fs, d["name"]), "comments": [], "type": ty(d["t"]), "selfpkg": pkg, "selfname": own_name(fs, d["name"])}
+                for d in by_pkg[pkg]]
+        entry = term["root"] if pkg == main_pkg else ""
+        out.append({"pkg": pkg, "meta": {"kind": "", "variant": "", "id": ""}, "entry": entry,
+                    "entrytype": {"k": "ref", "pkg": pkg, "name": entry, "nullable": False, "def": dict(NILV), "hints": []} if entry else {"k": "none"},
+                    "objects": objs})
+    return out
